@@ -41,7 +41,7 @@ say "== apply patch"
 git -C $WT apply $SRC/patch.diff || { say "patch does not apply"; exit 3; }
 (cd $WT && go build ./... >> $LOG 2>&1) && say "build ok" || say "BUILD FAILS"
 say "== existing suite with the change"
-(cd $WT && go test -vet=off -count=1 ./... 2>&1 | grep -v "^ok\|no test files" | grep -E "^(--- FAIL|FAIL|panic)" | sort | uniq -c | tee -a $LOG)
+(cd $WT && go test -vet=off -count=1 $(go list ./... | grep -v "^rare/out") 2>&1 | grep -v "^ok\|no test files" | grep -E "^(--- FAIL|FAIL|panic)" | sort | uniq -c | tee -a $LOG)
 say "== demo with the change"
 if rundemo; then say "patched: demo PASSES (change not confirmed)"; else say "patched: demo FAILS (confirmed)"; fi
 for id in "$@"; do
